@@ -37,7 +37,7 @@ for i in range(1, 21):
         am = json.load(open(os.path.join(out, f"meta{k}.json")))
         meta = {"id": sid, "property": pid, "round": rno, "kind": am.get("kind"), "summary": am.get("summary"),
                 "needs_to_manifest": am.get("needs_to_manifest"),
-                "author": f"independent sub-agent given only the property text and a scratch worktree (round {rno}: refactoring slips)",
+                "author": f"independent sub-agent given only the property text and a scratch worktree (round {rno})",
                 "confirmed_by_me": {"scratch_copy": "git archive of /repo HEAD under /tmp, removed afterwards",
                                     "suite_with_patch": "143 passed, 7 failed (the 7 pandas tests)",
                                     "demo_without_patch_exit": c["demo_without"], "demo_with_patch_exit": c["demo_with"],
